@@ -28,9 +28,13 @@ func scaleClasses(cl map[string]bool, blocks int) {
 }
 
 // drawBlocks: the number of blocks of a distributor case - lo..hi, or, one case in oneIn, a long run of 60-160
-func drawBlocks(t *rapid.T, lo, hi int, oneIn int) int {
+func drawBlocks(t *rapid.T, cfg DCfg, lo, hi int, oneIn int) int {
 	if rapid.IntRange(0, oneIn-1).Draw(t, "longRun") == 0 {
-		return rapid.IntRange(60, 160).Draw(t, "longRunBlocks")
+		n := rapid.IntRange(60, 160).Draw(t, "longRunBlocks")
+		if len(cfg.Accounts()) > 100 {
+			n = 12 + n/10 // (a wide configuration and a long run at once cost minutes)
+		}
+		return n
 	}
 	return rapid.IntRange(lo, hi).Draw(t, "blocks")
 }
@@ -235,7 +239,7 @@ func TestC03(t *testing.T) {
 	st := StatsFor("C03")
 	rapid.Check(t, func(t *rapid.T) {
 		cfg := GenDistrCfg(t, c03Opts())
-		blocks := drawBlocks(t, 2, 8, 30)
+		blocks := drawBlocks(t, cfg, 2, 8, 30)
 		inflows := genInflows(t, cfg, blocks, 30)
 		payments = map[int]bool{}
 		for b := 0; b < blocks; b++ {
